@@ -8,9 +8,10 @@
 //     and again after a restart;
 //   - Commit / Rollback of a pending root reply with that root; of anything else with types.ErrHashNotFound;
 //   - a root that was only ever pending (rolled back, or dropped by a restart) must not be readable from the
-//     database: when only the database can serve it (no memTree cache, or after a restart) a non-empty read is a
-//     leak, unless some committed root's content contains the whole content of that root (content addressing makes
-//     an identical tree or subtree legitimately present).
+//     database: in configurations where only the database can serve it (no memTree node cache) a non-empty read is
+//     a leak, unless some committed root's content contains the whole content of that root (content addressing
+//     makes an identical tree or subtree legitimately present). With memTree such roots are not read at all: the
+//     cache legitimately holds nodes of other pending updates, and the property speaks about committed roots only.
 package c04
 
 import (
@@ -124,7 +125,6 @@ type verT struct {
 
 type deadT struct {
 	content map[string]string
-	cold    bool // a restart happened since it was last pending: only the database could still serve it
 }
 
 type model struct {
@@ -232,7 +232,7 @@ func checkReads(m *model, c cfgT, get func(root []byte, keys [][]byte) [][]byte,
 				return fmt.Sprintf("committed root %x: key %q reads %q, the content committed there has %q (present=%v)", r, keys[i], got, w, ok)
 			}
 		}
-		if iterate != nil && os.Getenv("DBG_NOITER") == "" {
+		if iterate != nil {
 			var exp [][2]string
 			for k, v := range want {
 				exp = append(exp, [2]string{k, v})
@@ -250,11 +250,8 @@ func checkReads(m *model, c cfgT, get func(root []byte, keys [][]byte) [][]byte,
 	sort.Strings(dead)
 	for _, r := range dead {
 		d := m.dead[r]
-		if os.Getenv("DBG_NOPROBE") != "" {
-			continue
-		}
-		if c.MemTree && !d.cold {
-			continue // may still be served by the in-memory node cache; that is not committed state
+		if c.MemTree {
+			continue // the node cache may hold this tree as (part of) another pending update; that is not committed state
 		}
 		lib.Class("dead_root_probe")
 		for i, got := range get([]byte(r), keys) {
@@ -385,15 +382,19 @@ func runSequential(t lib.TB, test string, cs caseT) (res outcome) {
 	type fate struct{ committed, discarded bool }
 	branches := map[string]map[string]*fate{}
 	parentOf := map[string][]string{}
-	at := 0
+	at, judged := 0, false
 	defer func() { // a panic inside the store (it panics on a missing node) is reported with the history that led to it
 		if p := recover(); p != nil {
+			if judged { // not the store: the oracle already failed the case (rapid unwinds by panicking)
+				panic(p)
+			}
 			lib.Violation(t, prop, test, caseT{cs.Cfg, cs.Ops[:at+1]}, "step %d (%s): the store panicked: %v", at, cs.Ops[at].Op, p)
 		}
 	}()
 	for step, o := range cs.Ops {
 		at = step
 		fail := func(format string, a ...interface{}) {
+			judged = true
 			lib.Violation(t, prop, test, caseT{cs.Cfg, cs.Ops[:step+1]}, "step %d (%s): %s", step, o.Op, fmt.Sprintf(format, a...))
 		}
 		switch o.Op {
@@ -525,9 +526,6 @@ func runSequential(t lib.TB, test string, cs caseT) (res outcome) {
 				if _, ok := m.committed[r]; !ok {
 					m.dead[r] = &deadT{content: v.content}
 				}
-			}
-			for _, d := range m.dead {
-				d.cold = true
 			}
 		}
 		if msg := checkReads(m, cs.Cfg, get, iterate); msg != "" {
